@@ -151,7 +151,7 @@ package otto
 //@   ensures called(pf) && pf_1 != nil && called(rng) && rng ==> sameFloat(result, pf_0)
 
 //@ func (Value).number
-//@   props C05 C08 C09 C15
+//@   props C05 C08 C09 C15 C11
 //@   unfold numOf
 //@   requires jsValue(v)
 //@   pure_if v.kind != valueObject
@@ -679,7 +679,9 @@ package otto
 //@   ensures old(has(obj.property, name)) && !dEmptyD(descriptor) && result && is(descriptor.value, Value) ==> obj.property[name].value == descriptor.value
 //@   ensures old(has(obj.property, name)) && !dEmptyD(descriptor) && result && is(descriptor.value, propertyGetSet) ==> is(obj.property[name].value, propertyGetSet) &&
 //@+    obj.property[name].value.(propertyGetSet)[0] == mergedSide(old(obj.property[name]), descriptor, 0) && obj.property[name].value.(propertyGetSet)[1] == mergedSide(old(obj.property[name]), descriptor, 1)
-//@   ensures result ==> has(obj.property, name) && wfStored(obj.property[name])
+// (also a C02 obligation: a stored accessor side that is the "present but undefined" sentinel would be
+// dereferenced as a function object by the next [[Get]], [[Put]] or descriptor read)
+//@   ensures[C02,C07] result ==> has(obj.property, name) && wfStored(obj.property[name])
 //@   ensures !result ==> (has(obj.property, name) <==> old(has(obj.property, name))) && obj.property[name] == old(obj.property[name])
 //@   ensures forall k string :: k != name ==> obj.property[k] == old(obj.property[k]) && (has(obj.property, k) <==> old(has(obj.property, k)))
 //@   throws throw && ((!has(obj.property, name) && !obj.extensible) || (has(obj.property, name) && !dEmptyD(descriptor) && rej(obj.property[name], descriptor)))
@@ -775,7 +777,7 @@ package otto
 
 // 8.12.4 [[CanPut]] with the details objectPut needs
 //@ func objectCanPutDetails
-//@   props C07
+//@   props C07 C11
 //@   requires obj != nil && obj.objectClass == classObject
 //@   requires has(obj.property, name) ==> wfStored(obj.property[name])
 //@   ensures old(has(obj.property, name) && is(obj.property[name].value, Value)) ==> (canPut <==> old(dig(obj.property[name].mode, 2) == 1)) && setter == nil && prop != nil && *prop == old(obj.property[name])
@@ -843,7 +845,7 @@ package otto
 // with limit L the push succeeds iff the new depth is below L, so exactly depths 0..L-1
 // are admitted.
 //@ func (*runtime).enterScope
-//@   props C18 C02
+//@   props C18 C02 C19
 //@   requires rt != nil && scop != nil && scop != rt.scope
 //@   ensures rt.scope == scop && scop.outer == old(rt.scope)
 //@   ensures old(rt.scope) != nil ==> scop.depth == old(rt.scope.depth) + 1
@@ -1003,6 +1005,14 @@ package otto
 //@ func (*runtime).calculateBinaryExpression
 //@   props C05 C19
 //@   requires rt != nil && jsValue(left) && jsValue(right) && binaryOp(operator)
+// 11.7.1-3, 11.10: the left operand is converted before the right one (observable through
+// valueOf/toString of object operands): the first integer conversion is that of the left operand
+//@   calls toInt32(_) as ci when false
+//@   calls toUint32(_) as cu when false
+//@   at_call toUint32 : (operator == token.SHIFT_LEFT || operator == token.SHIFT_RIGHT) ==> called(ci)
+//@   at_call toInt32 : (operator == token.SHIFT_LEFT || operator == token.SHIFT_RIGHT) ==> arg0 == leftValue
+//@   at_call toUint32 : operator == token.UNSIGNED_SHIFT_RIGHT && ncalls(cu) == 0 ==> arg0 == leftValue
+//@   at_call toInt32 : (operator == token.AND || operator == token.OR || operator == token.EXCLUSIVE_OR) && ncalls(ci) == 0 ==> arg0 == leftValue
 //@   ensures operator == token.AND && isGoNumber(left) && isGoNumber(right) ==> isInt32Val(result, i32of(left) & i32of(right))
 //@   ensures operator == token.OR && isGoNumber(left) && isGoNumber(right) ==> isInt32Val(result, i32of(left) | i32of(right))
 //@   ensures operator == token.EXCLUSIVE_OR && isGoNumber(left) && isGoNumber(right) ==> isInt32Val(result, i32of(left) ^ i32of(right))
@@ -1036,7 +1046,10 @@ package otto
 // range over objects a callee has yet to allocate)
 //@ spec classOK(x *object) bool = x.objectClass != nil && x.objectClass.clone != nil
 //@ spec heapClassOK(c *cloner) bool = c != nil && c.obj != nil && c.objectstash != nil && c.dclstash != nil && c.fnstash != nil && (forall k *object :: has(c.obj, k) ==> c.obj[k] != nil) && (forall k *dclStash :: has(c.dclstash, k) ==> c.dclstash[k] != nil)
-//@ spec memoGrows(c *cloner) bool = forall k *object :: old(has(c.obj, k)) ==> has(c.obj, k) && c.obj[k] == old(c.obj[k])
+//@ spec memoGrows(c *cloner) bool = (forall k *object :: old(has(c.obj, k)) ==> has(c.obj, k) && c.obj[k] == old(c.obj[k])) &&
+//@+  (forall k *dclStash :: old(has(c.dclstash, k)) ==> has(c.dclstash, k) && c.dclstash[k] == old(c.dclstash[k])) &&
+//@+  (forall k *objectStash :: old(has(c.objectstash, k)) ==> has(c.objectstash, k) && c.objectstash[k] == old(c.objectstash[k])) &&
+//@+  (forall k *fnStash :: old(has(c.fnstash, k)) ==> has(c.fnstash, k) && c.fnstash[k] == old(c.fnstash[k]))
 
 // b is the copy of a: primitives are the same value, an object reference is the memo's
 // copy of the original's object (so the copy never points back into the original heap).
@@ -1156,6 +1169,8 @@ package otto
 //@   props C17
 //@   implements stasher.clone
 //@   assumes s != nil && s.object != nil
+//@   ensures is(result, *objectStash) && has(c.objectstash, s) && c.objectstash[s] == result.(*objectStash)
+//@   ensures old(has(c.objectstash, s)) ==> result.(*objectStash) == old(c.objectstash[s])
 //@   ensures !old(has(c.objectstash, s)) ==> is(result, *objectStash) && result.(*objectStash) != s && result.(*objectStash).rt == c.runtime && cloneOfO(c, old(s.object), result.(*objectStash).object)
 
 //@ func (*dclStash).clone
@@ -1164,9 +1179,14 @@ package otto
 //@   fresh_refs
 //@   assumes s != nil && (forall k string :: has(s.property, k) ==> valOKC(s.property[k].value))
 //@   invariant@1 heapClassOK(c) && memoGrows(c) && fresh(prop) && prop != nil && s.property == old(s.property) && !fresh(s.property)
+//@   invariant@1 has(c.dclstash, s) && c.dclstash[s] == out
 //@   invariant@1 forall k string :: has(s.property, k) ==> valOKC(s.property[k].value)
 //@   invariant@1 forall k string :: has(prop, k) ==> old(has(s.property, k)) && cloneOfV(c, old(s.property[k].value), prop[k].value) && prop[k].mutable == old(s.property[k].mutable)
 //@   ensures is(result, *dclStash) && result.(*dclStash) != nil
+// the memo records the copy that is returned: a second path to the same scope gets the same
+// copy (closures that shared a scope still share it after Copy), already-copied scopes are returned as recorded
+//@   ensures has(c.dclstash, s) && c.dclstash[s] == result.(*dclStash)
+//@   ensures old(has(c.dclstash, s)) ==> result.(*dclStash) == old(c.dclstash[s])
 //@   ensures !old(has(c.dclstash, s)) ==> result.(*dclStash) != s && result.(*dclStash).rt == c.runtime && result.(*dclStash).property != nil && result.(*dclStash).property != old(s.property)
 //@   ensures !old(has(c.dclstash, s)) ==> (forall k string :: has(result.(*dclStash).property, k) ==> old(has(s.property, k)))
 //@   ensures !old(has(c.dclstash, s)) ==> (forall k string :: has(result.(*dclStash).property, k) ==> cloneOfV(c, old(s.property[k].value), result.(*dclStash).property[k].value))
@@ -1176,6 +1196,8 @@ package otto
 //@   implements stasher.clone
 //@   assumes s != nil && (forall k string :: has(s.dclStash.property, k) ==> valOKC(s.dclStash.property[k].value))
 //@   invariant@1 heapClassOK(c) && memoGrows(c) && index != nil && index != s.indexOfArgumentName
+//@   ensures is(result, *fnStash) && has(c.fnstash, s) && c.fnstash[s] == result.(*fnStash)
+//@   ensures old(has(c.fnstash, s)) ==> result.(*fnStash) == old(c.fnstash[s])
 //@   ensures !old(has(c.fnstash, s)) ==> is(result, *fnStash) && result.(*fnStash) != s && cloneOfO(c, old(s.arguments), result.(*fnStash).arguments)
 //@   ensures !old(has(c.fnstash, s)) ==> result.(*fnStash).indexOfArgumentName != nil && result.(*fnStash).indexOfArgumentName != old(s.indexOfArgumentName)
 
@@ -1220,6 +1242,8 @@ package otto
 //@   ensures result.scope == nil
 //@   calls (*cloner).object(_, old(rt.globalObject)) as mGlobalObject
 //@   ensures result.globalObject == mGlobalObject
+// the copy's global object inherits from the copy's own Object.prototype (never the original's)
+//@   ensures result.globalObject.prototype == result.global.ObjectPrototype
 //@   calls (*cloner).object(_, old(rt.global.Object)) as mObject
 //@   ensures result.global.Object == mObject
 //@   calls (*cloner).object(_, old(rt.global.Function)) as mFunction
@@ -1331,7 +1355,7 @@ package otto
 // for the caller (reflect.ValueOf), that integer is numerically equal to the number -
 // never a truncated fraction, a wrapped-around out-of-range value or a stand-in for NaN.
 //@ func (Value).toReflectValue
-//@   props C16
+//@   props C16 C15
 //@   nosafety
 //@   unfold numOf intOf
 //@   requires jsValue(v) && typ != nil
@@ -1365,7 +1389,7 @@ package otto
 // exactly that kind that is numerically equal to the number - or the call throws
 // (RangeError / TypeError): no truncated fraction, no wrap-around, no sign change.
 //@ func (*runtime).convertNumeric
-//@   props C16
+//@   props C16 C15
 //@   nosafety
 //@   unfold numOf intOf
 //@   requires rt != nil && jsValue(v) && isGoNumber(v) && t != nil
@@ -1517,8 +1541,13 @@ package otto
 
 // indexOf / lastIndexOf report positions in UTF-16 code units: the byte offset of the
 // match is converted by counting the code units of the text before it.
+// the number of UTF-16 code units of a string is the length of its encoding by unicode/utf16
+// (one unit per code point below U+10000, two from U+10000 on)
 //@ func utf16Length
+//@   props C09
 //@   logical
+//@   calls unicode/utf16.Encode(_) as e
+//@   ensures called(e) && result == len(e)
 //@ func indexRune
 //@   props C09
 //@   safety C02 C09
@@ -1911,7 +1940,7 @@ package otto
 // types), a number result always carries one of the payload types the number kernels
 // accept (C05: isGoNumber).
 //@ func toValue
-//@   props C15
+//@   props C15 C16
 //@   nosafety
 //@   requires is(value, Value) ==> wfValue(value.(Value))
 //@   ensures is(value, Value) ==> result == value.(Value)
@@ -2227,7 +2256,7 @@ package otto
 // otherwise a new property {V, writable, enumerable, configurable all true} is created
 // (step 6).  [[CanPut]] itself is objectCanPutDetails (contract above).
 //@ func objectPut
-//@   props C07
+//@   props C07 C11
 //@   nosafety
 //@   requires obj != nil && obj.runtime != nil && jsValue(value)
 //@   abstract_callee objectCanPutDetails, (*object).call
@@ -3684,14 +3713,14 @@ package otto
 //@   at_call (*runtime).newErrorObject : arg0 == rt && arg1 == "EvalError" && arg2 == message && arg3 == 0
 //@   ensures called(o) && result == o && result.prototype == rt.global.EvalErrorPrototype
 //@ func builtinEvalError
-//@   props C19
+//@   props C19 C14
 //@   requires wfCall(call) && argOK(call, 0) && call.runtime != nil
 //@   stable call.ArgumentList
 //@   calls (*runtime).newEvalError(_, _) as o
 //@   at_call (*runtime).newEvalError : arg0 == call.runtime && arg1 == argOf(call, 0)
 //@   ensures called(o) && result.kind == valueObject && is(result.value, *object) && result.value.(*object) == o
 //@ func builtinNewEvalError
-//@   props C19
+//@   props C19 C14
 //@   requires obj != nil && obj.runtime != nil && slotOK(argumentList, 0)
 //@   stable argumentList
 //@   calls (*runtime).newEvalError(_, _) as o
@@ -3705,14 +3734,14 @@ package otto
 //@   at_call (*runtime).newErrorObject : arg0 == rt && arg1 == "TypeError" && arg2 == message && arg3 == 0
 //@   ensures called(o) && result == o && result.prototype == rt.global.TypeErrorPrototype
 //@ func builtinTypeError
-//@   props C19
+//@   props C19 C14
 //@   requires wfCall(call) && argOK(call, 0) && call.runtime != nil
 //@   stable call.ArgumentList
 //@   calls (*runtime).newTypeError(_, _) as o
 //@   at_call (*runtime).newTypeError : arg0 == call.runtime && arg1 == argOf(call, 0)
 //@   ensures called(o) && result.kind == valueObject && is(result.value, *object) && result.value.(*object) == o
 //@ func builtinNewTypeError
-//@   props C19
+//@   props C19 C14
 //@   requires obj != nil && obj.runtime != nil && slotOK(argumentList, 0)
 //@   stable argumentList
 //@   calls (*runtime).newTypeError(_, _) as o
@@ -3726,14 +3755,14 @@ package otto
 //@   at_call (*runtime).newErrorObject : arg0 == rt && arg1 == "RangeError" && arg2 == message && arg3 == 0
 //@   ensures called(o) && result == o && result.prototype == rt.global.RangeErrorPrototype
 //@ func builtinRangeError
-//@   props C19
+//@   props C19 C14
 //@   requires wfCall(call) && argOK(call, 0) && call.runtime != nil
 //@   stable call.ArgumentList
 //@   calls (*runtime).newRangeError(_, _) as o
 //@   at_call (*runtime).newRangeError : arg0 == call.runtime && arg1 == argOf(call, 0)
 //@   ensures called(o) && result.kind == valueObject && is(result.value, *object) && result.value.(*object) == o
 //@ func builtinNewRangeError
-//@   props C19
+//@   props C19 C14
 //@   requires obj != nil && obj.runtime != nil && slotOK(argumentList, 0)
 //@   stable argumentList
 //@   calls (*runtime).newRangeError(_, _) as o
@@ -3747,14 +3776,14 @@ package otto
 //@   at_call (*runtime).newErrorObject : arg0 == rt && arg1 == "ReferenceError" && arg2 == message && arg3 == 0
 //@   ensures called(o) && result == o && result.prototype == rt.global.ReferenceErrorPrototype
 //@ func builtinReferenceError
-//@   props C19
+//@   props C19 C14
 //@   requires wfCall(call) && argOK(call, 0) && call.runtime != nil
 //@   stable call.ArgumentList
 //@   calls (*runtime).newReferenceError(_, _) as o
 //@   at_call (*runtime).newReferenceError : arg0 == call.runtime && arg1 == argOf(call, 0)
 //@   ensures called(o) && result.kind == valueObject && is(result.value, *object) && result.value.(*object) == o
 //@ func builtinNewReferenceError
-//@   props C19
+//@   props C19 C14
 //@   requires obj != nil && obj.runtime != nil && slotOK(argumentList, 0)
 //@   stable argumentList
 //@   calls (*runtime).newReferenceError(_, _) as o
@@ -3768,14 +3797,14 @@ package otto
 //@   at_call (*runtime).newErrorObject : arg0 == rt && arg1 == "SyntaxError" && arg2 == message && arg3 == 0
 //@   ensures called(o) && result == o && result.prototype == rt.global.SyntaxErrorPrototype
 //@ func builtinSyntaxError
-//@   props C19
+//@   props C19 C14
 //@   requires wfCall(call) && argOK(call, 0) && call.runtime != nil
 //@   stable call.ArgumentList
 //@   calls (*runtime).newSyntaxError(_, _) as o
 //@   at_call (*runtime).newSyntaxError : arg0 == call.runtime && arg1 == argOf(call, 0)
 //@   ensures called(o) && result.kind == valueObject && is(result.value, *object) && result.value.(*object) == o
 //@ func builtinNewSyntaxError
-//@   props C19
+//@   props C19 C14
 //@   requires obj != nil && obj.runtime != nil && slotOK(argumentList, 0)
 //@   stable argumentList
 //@   calls (*runtime).newSyntaxError(_, _) as o
@@ -3789,28 +3818,28 @@ package otto
 //@   at_call (*runtime).newErrorObject : arg0 == rt && arg1 == "URIError" && arg2 == message && arg3 == 0
 //@   ensures called(o) && result == o && result.prototype == rt.global.URIErrorPrototype
 //@ func builtinURIError
-//@   props C19
+//@   props C19 C14
 //@   requires wfCall(call) && argOK(call, 0) && call.runtime != nil
 //@   stable call.ArgumentList
 //@   calls (*runtime).newURIError(_, _) as o
 //@   at_call (*runtime).newURIError : arg0 == call.runtime && arg1 == argOf(call, 0)
 //@   ensures called(o) && result.kind == valueObject && is(result.value, *object) && result.value.(*object) == o
 //@ func builtinNewURIError
-//@   props C19
+//@   props C19 C14
 //@   requires obj != nil && obj.runtime != nil && slotOK(argumentList, 0)
 //@   stable argumentList
 //@   calls (*runtime).newURIError(_, _) as o
 //@   at_call (*runtime).newURIError : arg0 == obj.runtime && (len(argumentList) > 0 && argumentList[0].kind != valueEmpty ==> arg1 == argumentList[0]) && (len(argumentList) == 0 ==> arg1 == Value{})
 //@   ensures called(o) && result.kind == valueObject && is(result.value, *object) && result.value.(*object) == o
 //@ func builtinError
-//@   props C19
+//@   props C19 C14
 //@   requires wfCall(call) && argOK(call, 0) && call.runtime != nil
 //@   stable call.ArgumentList
 //@   calls (*runtime).newError(_, _, _, _) as o
 //@   at_call (*runtime).newError : arg0 == call.runtime && arg1 == "Error" && arg2 == argOf(call, 0) && arg3 == 1
 //@   ensures called(o) && result.kind == valueObject && is(result.value, *object) && result.value.(*object) == o
 //@ func builtinNewError
-//@   props C19
+//@   props C19 C14
 //@   requires obj != nil && obj.runtime != nil && slotOK(argumentList, 0)
 //@   stable argumentList
 //@   calls (*runtime).newError(_, _, _, _) as o
